@@ -5,6 +5,9 @@
 #include <unistd.h>
 #include <sys/stat.h>
 #include <algorithm>
+#include <functional>
+#include <memory>
+#include "Archive/ArchiveFile.h"
 
 namespace volgen {
 using namespace verif;
@@ -16,7 +19,7 @@ struct InFile {
 	std::vector<uint8_t> content;
 };
 
-inline const char* name_punct() { return "_^[]`-.,+=@#~!(){} "; }
+inline const char* name_punct() { return "_^[]`-.,+=@#~!(){} \\';&$\\"; }   // incl. the backslash: an ordinary file-name character here, not a separator
 
 inline bool ieq_reserved(const std::string& a, const char* b) { return refvol::ieq(a, b); }
 
@@ -120,6 +123,80 @@ inline std::vector<size_t> expected_order(const std::vector<InFile>& fs) {
 	std::sort(idx.begin(), idx.end(), [&](size_t a, size_t b) { return refvol::icmp(fs[a].name, fs[b].name) < 0; });
 	return idx;
 }
+
+// ---- a session of calls on ONE long-lived archive object (DESIGN.md 7.8) ----
+// Every step is judged on its own, whatever came before it on the same object: what a member stream delivers and what an extraction writes
+// must not depend on the calls made earlier - in particular not on calls that were refused (extraction onto a directory, an index beyond the
+// count, an unknown name), on streams that are still open, or on which member was touched last.
+template <class A> struct Session {
+	A& v;
+	const std::vector<std::string>& names;                    // member i's name
+	const std::vector<std::vector<uint8_t>>& streams;         // what OpenStream(i) must deliver
+	std::function<void(size_t, const std::string&)> checkExtracted;   // judges the file an extraction of member i wrote
+	std::vector<char> extractable;                            // empty = all; otherwise members whose extraction may lawfully be refused are 0
+	using StreamPtr = decltype(std::declval<A&>().OpenStream(size_t(0)));
+	struct Held { StreamPtr s; size_t i, off; };
+	std::vector<Held> held;
+	std::string trail;
+	enum { ExtractGood, ExtractOntoDirectory, ExtractBeyondCount, StreamWhole, StreamHold, StreamContinue, ExtractByName, LookupAbsent, NameOf, ExtractIntoMissingDir, StreamOverRead, NOPS };
+	static const char* opname(unsigned op) { static const char* n[] = {"X", "Xdir", "Xoob", "S", "Shold", "Scont", "Xname", "L?", "N", "Xnewdir", "Sover"}; return n[op % NOPS]; }
+	bool canExtract(size_t i) const { return extractable.empty() || extractable[i]; }
+	void readRest(Held& h) {
+		const auto& want = streams[h.i]; size_t rem = want.size() - h.off; std::vector<uint8_t> got(rem);
+		if (rem) h.s->Read(got.data(), rem);
+		V_CHECK(std::equal(got.begin(), got.end(), want.begin() + h.off), "session [" << trail << "]: a member stream of " << jstr(names[h.i]) << " that stayed open during other calls continued with other bytes (from offset " << h.off << ")");
+		V_CHECK(h.s->Position() == want.size(), "session [" << trail << "]: held stream position " << h.s->Position() << " after reading to its end, length " << want.size());
+	}
+	void step(unsigned op, size_t i, uint64_t aux) {
+		op %= NOPS; const size_t n = names.size(); if (!n) return; i %= n;
+		trail += std::string(trail.empty() ? "" : " ") + opname(op) + std::to_string(i);
+		mkdirs("%x/sess/"); mkdirs("%x/sessdir/");
+		std::string good = "%x/sess/f" + std::to_string(aux % 3);
+		switch (op) {
+		case ExtractGood: case ExtractByName: {
+			auto call = [&] { if (op == ExtractGood) v.ExtractFile(i, good); else static_cast<OP2Utility::Archive::ArchiveFile&>(v).ExtractFile(case_variant(names[i], aux), good); };
+			bool dupName = false; for (size_t k = 0; k < n; ++k) if (k != i && ieq(names[k], names[i])) dupName = true;
+			if (op == ExtractByName && dupName) { guarded(call); break; }   // the name is not unique: which member answers is not this step's business
+			if (!canExtract(i)) { guarded(call); break; }
+			std::string what; Out o = guarded(call, &what);
+			V_CHECK(o == Out::Ok, "session [" << trail << "]: extraction of member " << i << " " << jstr(names[i]) << " refused after the earlier calls on this object: " << what);
+			checkExtracted(i, good); remove(good.c_str()); break; }
+		case ExtractOntoDirectory: guarded([&] { v.ExtractFile(i, "%x/sessdir"); }); break;
+		case ExtractBeyondCount: guarded([&] { v.ExtractFile(n + aux % 3, good); }); remove(good.c_str()); break;
+		case ExtractIntoMissingDir: { std::string p2 = "%x/sess/nd" + std::to_string(aux % 2) + "/f"; Out o = guarded([&] { v.ExtractFile(i, p2); }); if (o == Out::Ok && canExtract(i)) checkExtracted(i, p2); remove(p2.c_str()); rmdir(p2.substr(0, p2.size() - 2).c_str()); break; }
+		case StreamWhole: case StreamOverRead: {
+			auto s = v.OpenStream(i); const auto& want = streams[i];
+			V_CHECK(s->Length() == want.size(), "session [" << trail << "]: stream of member " << i << " " << jstr(names[i]) << " has length " << s->Length() << ", expected " << want.size());
+			if (op == StreamOverRead) { std::vector<uint8_t> big(want.size() + 1 + aux % 7); guarded([&] { s->Read(big.data(), big.size()); }); s->Seek(0); }   // what the over-long read itself must do is C12's business; here: the stream still delivers the member afterwards
+			std::vector<uint8_t> got(want.size()); if (!got.empty()) s->Read(got.data(), got.size());
+			V_CHECK(got == want, "session [" << trail << "]: stream of member " << i << " " << jstr(names[i]) << " delivered other bytes after the earlier calls on this object");
+			break; }
+		case StreamHold: {
+			Held h{v.OpenStream(i), i, 0}; const auto& want = streams[i];
+			V_CHECK(h.s->Length() == want.size(), "session [" << trail << "]: stream length " << h.s->Length() << " != " << want.size());
+			size_t k = std::min<size_t>(want.size(), 1 + aux % 5); std::vector<uint8_t> got(k); if (k) h.s->Read(got.data(), k);
+			V_CHECK(std::equal(got.begin(), got.end(), want.begin()), "session [" << trail << "]: first bytes of member " << i << " differ"); h.off = k;
+			if (held.size() < 6) held.push_back(std::move(h)); break; }
+		case StreamContinue: if (!held.empty()) { size_t k = aux % held.size(); readRest(held[k]); held.erase(held.begin() + k); } break;
+		case LookupAbsent: { std::string q = names[i] + "~q"; bool present = false; for (auto& m : names) if (ieq(m, q)) present = true; if (!present) { guarded([&] { (void)v.GetIndex(q); }); guarded([&] { (void)v.Contains(q); }); guarded([&] { (void)static_cast<OP2Utility::Archive::ArchiveFile&>(v).OpenStream(q); }); } break; }
+		case NameOf: V_CHECK(v.GetName(i) == names[i], "session [" << trail << "]: GetName(" << i << ") = " << jstr(v.GetName(i)) << ", expected " << jstr(names[i])); break;
+		}
+	}
+	void finish() { for (auto& h : held) readRest(h); held.clear(); }
+	// tape-driven: the next member is, half of the time, the successor of the previous one (in-order access is what caches are written for)
+	void run(Tape& t, Stats& st, unsigned steps) {
+		const size_t n = names.size(); if (!n || !steps) return;
+		size_t prev = t.below(n); bool refusedSeen = false, afterRefusal = false;
+		for (unsigned k = 0; k < steps; ++k) {
+			size_t i = t.flag() ? (prev + 1) % n : t.below(n); unsigned op = unsigned(t.below(NOPS));
+			step(op, i, t.u8());
+			if (op == ExtractOntoDirectory || op == ExtractBeyondCount || op == LookupAbsent || op == StreamOverRead) refusedSeen = true; else if (refusedSeen) afterRefusal = true;
+			prev = i;
+		}
+		finish();
+		st.cls("session_steps", steps); if (afterRefusal) st.cls("session_with_calls_after_a_refused_call");
+	}
+};
 
 inline std::string render(const std::vector<InFile>& fs, const std::string& out) {
 	std::string s = "{\"files\":[";
